@@ -76,10 +76,13 @@ C18_Shape(cfg, wl, V, R) == \A j \in 1..Len(R.asg) : LET a == R.asg[j] IN
 C18_CpuBound(cfg, V, R) == \A k \in 1..cfg.np : Len(V.pools[k].active) + Len(AsgInPool(R, k)) <= cfg.cpucap
 C18_ThreeStrikes(G, R) == \A j \in 1..Len(R.asg) : G.nfail[PipeOfAsg(R.asg[j])] < 3
 \* after a round triggered by an arrival or a result: no ready operator of a live pipeline waits while some pool has a free cpu
+\* an operator whose container is still listed in a pool has not come back to the scheduler yet (a container killed from outside
+\* between two ticks is reaped, and its failure reported, by the next tick); without such kills no listed container holds a ready operator
+Held(V, o) == \E k \in 1..Len(V.pools) : \E j \in 1..Len(V.pools[k].active) : \E m \in 1..Len(V.pools[k].active[j].ops) : V.pools[k].active[j].ops[m] = o
 C18_WorkConserving(cfg, wl, V, R, G, post) ==
   (R.new # <<>> \/ R.results # <<>>) =>
      ((\E k \in 1..cfg.np : FreeCpuAfter(V, R, k) >= 1) =>
-        \A o \in ArrivedOps(wl, G) : G.nfail[o[1]] < 3 => ~Ready(wl, post, o))
+        \A o \in ArrivedOps(wl, G) : G.nfail[o[1]] < 3 => (~Ready(wl, post, o) \/ Held(V, o)))
 
 (* ------------------------------- C16: priority-pool ------------------------------- *)
 PoolOf(prio) == IF prio = "B" THEN 2 ELSE 1
